@@ -10,6 +10,9 @@ CHECKS = {
  'C16': dict(level='proof', ref='§6 C16', technique='Lean 4 theorems on list model + bit-exact grid correspondence',
    text='Lean theorems (any commutative ring, any counts): angle list, far-field table and near-field grid have exactly the requested number of entries, entry k = start + k*step, documented order. Model tied to the code by bit-exact comparison of the implementation\'s grids/tables with the executed model.',
    note=TB + 'IEEE rounding of start + k*step and numpy meshgrid semantics are outside the theorems.'),
+ 'C19': dict(level='proof', ref='§6 C19', technique='Lean 4 theorems on exact-rational format_float model + string-equal correspondence',
+   text='Lean theorems for every finite double: the number denoted by the printed field is within 5e-7 relative (|f|>=1, and exponent format), 5e-7 absolute (0.1<=|f|<1, i.e. 5e-6 relative), <1e-6 absolute (fixed-point fields below 0.1) of the value; zero prints as 0. Model tied string-for-string to util.format_float; printed source blocks are read back against the in-memory values. Report row structure (rows per pulse etc.) is tied under C09/C12/C17, not here.',
+   note=TB + "CPython '%f'/'%e' correct rounding is modelled, not verified; the reader used for `fmtVal` vs text is executed per case, not proved."),
 }
 NOT_YET = {}
 
